@@ -284,7 +284,11 @@ func RecoverFile(path string, o *opt.Options) (db *DB, err error) {
 }
 
 func recoverTable(s *session, o *opt.Options) error {
-	o = dupOptions(o)
+	// Tables hold internal keys: read and, above all, rebuild them with the
+	// session's options (internal comparer and filter), as every other table
+	// of the DB is written. A table rebuilt with the user comparer gets index
+	// keys that are not internal keys and cannot be searched afterwards.
+	o = dupOptions(s.o.Options)
 	// Mask StrictReader, lets StrictRecovery doing its job.
 	o.Strict &= ^opt.StrictReader
 
